@@ -331,7 +331,44 @@ def oracle_container(case, obs):
                 out[a].append((b, int(t[4])))
                 inn[b].append((a, int(t[4])))
         elif op in ("dis", "iso", "try"):
-            return None  # edge removal semantics are C03's; stop deciding views here (correspondence still compares)
+            if len(set(nkeys)) != len(nkeys):
+                return None  # same-key twins: removal / lookup by key is outside the distinct-keys proviso; stop deciding views
+            # follow the multigraph contract of C03 on the reference adjacency (multisets are all the views need)
+            if text.startswith("panic"):
+                return "step %d `%s` panicked" % (si, st)
+            u = int(t[1])
+            if op == "try":
+                v, e = int(t[2]), int(t[3])
+                has = any(w == v for (w, _) in out[u]) or (cls == "U" and any(w == v for (w, _) in inn[u]))
+                if not has:
+                    out[u].append((v, e))
+                    inn[v].append((u, e))
+            elif op == "iso":
+                out[u], inn[u] = [], []
+                for w in out:
+                    out[w] = [(x, e) for (x, e) in out[w] if x != u]
+                    inn[w] = [(x, e) for (x, e) in inn[w] if x != u]
+            else:
+                k = int(t[2])
+                if k in nkeys:
+                    v = nkeys.index(k)
+                    def take(lst, w, val=None):
+                        for i, (x, e) in enumerate(lst):
+                            if x == w and (val is None or e == val):
+                                return lst.pop(i)[1]
+                        return None
+                    if cls == "U":
+                        e0 = take(inn[u], v)
+                        if e0 is not None:
+                            take(out[v], u, e0)
+                        else:
+                            e0 = take(out[u], v)
+                            if e0 is not None:
+                                take(inn[v], u, e0)
+                    else:
+                        e0 = take(out[u], v)
+                        if e0 is not None:
+                            take(inn[v], u, e0)
         elif op == "gins":
             g = graphs[int(t[1])]
             u = int(t[2])
